@@ -49,7 +49,7 @@ ASSUMPTIONS = [
     "task-group ownership is observed behaviourally (which block's exit waits for / cancels a parked probe task)",
 ]
 MINIMUMS = {"monitor:state-restored": 100000, "monitor:scope-restored": 5000, "monitor:taskgroup-restored": 5000, "monitor:exception-identity": 500,
-            "probes_after_fault": 3000, "faults:disposable-enter": 100, "faults:disposable-exit": 100, "faults:child": 100, "faults:body-exception": 300, "injections_delivered": 500}
+            "probes_after_fault": 3000, "faults:disposable-enter": 100, "faults:disposable-exit": 100, "faults:child": 100, "faults:body-exception": 300, "injections_delivered": 500, "programs_leaving_a_block_after_the_scopes_it_was_spawned_from": 9}
 JOBS = {"quick": 4, "thorough": 16}
 OPTIMIZED_SHARDS = {"quick": 2, "thorough": 16}  # the same cases once more under `python -O`
 LEVEL_TEXT = (
